@@ -18,3 +18,21 @@ Example C13_nonvacuous :
   c13_ok c [[Ret 0 1 1 4]; [Ret 1 2 1 4]; [Reconn; SockOpened 1; Tx 1 PConnect];
             [Inp (IConnack 0); Tx 1 (PPublish 2 1 false 1); Tx 1 (PPublish 1 1 false 0)]] = false.
 Proof. vm_compute. repeat split; reflexivity. Qed.
+
+(* ------------------------------------------------------------------------------------------
+   The same property on the second-generation session model (coq/theories/Session2): the client's
+   output queue and a transport that may refuse writes are modelled; events distinguish a packet
+   HANDED to the connection from a packet WRITTEN; reconnect() drops what is still queued. *)
+From PahoV Require Import Session2.Model Session2.Check Session2.Statements Session2.FifoProofs Session2.C13Transfer Session2.C13Proofs.
+
+(* publish() order of the hand-overs per connection *)
+Theorem C13_order_handed_with_blocking : forall c ops,
+  cfg_ok c = true -> conforming c ops = true -> c13_handed_ok c (optrace c ops) = true.
+Proof. exact c13_handed_proved. Qed.
+Print Assumptions C13_order_handed_with_blocking.
+
+(* publish() order of the writes per connection (FIFO queue) *)
+Theorem C13_order_written_with_blocking : forall c ops,
+  cfg_ok c = true -> conforming c ops = true -> c13_tx_ok c (optrace c ops) = true.
+Proof. exact c13_tx_proved. Qed.
+Print Assumptions C13_order_written_with_blocking.
